@@ -96,14 +96,14 @@ static void nd_indices(const unsigned idx[16], const char *what) {
 static long find(const uint8_t *h, size_t hn, const uint8_t *n, size_t nn, size_t *where) { long c = 0; for (size_t i = 0; i + nn <= hn; i++) if (h[i] == n[0] && !memcmp(h + i, n, nn)) { if (!c && where) *where = i; c++; } return c; }
 
 static uint64_t BYTES_SCANNED; static long CELLS, CALLS;
-static char CELLS_SEEN[96][48]; static int NCELLS_SEEN;
+static char CELLS_SEEN[128][48]; static int NCELLS_SEEN;
 static struct res *R; static const char *BUILD = "?";
 static int SEEDNO;
 
 static void scan(const char *cell) {
     CALLS++;
     int seen = 0; for (int i = 0; i < NCELLS_SEEN; i++) if (!strcmp(CELLS_SEEN[i], cell)) seen = 1;
-    if (!seen && NCELLS_SEEN < 96) strcpy(CELLS_SEEN[NCELLS_SEEN++], cell);
+    if (!seen && NCELLS_SEEN < 128) strcpy(CELLS_SEEN[NCELLS_SEEN++], cell);
     R->cases++; R->calls++;
     static uint8_t *sec; size_t ss = sec_size(); if (!sec) sec = malloc(ss + 16); sec_save(sec);
     BYTES_SCANNED += STK + ss;
@@ -245,6 +245,26 @@ int main(int argc, char **argv) {
             { char nf[700]; size_t nl = u_nfkd(PWk, nf, sizeof nf - 1); if (nl <= 60) nd_windows((const uint8_t *)nf, nl, 8, "password(NFKD)"); else for (size_t o2 = 0; o2 + 12 <= nl && o2 < 543 && NND < 395; o2 += 29) nd_add(nf + o2, 12, "password(NFKD)"); }
             J.S = seed; call(F_CRYPT, CN[k], -1);
             polyseed_crypt(seed, PWk);   /* back to the plain seed */
+        }
+        NND = base_nd;
+        /* ---- the same calls on seed objects with another history: after one password operation (encrypted), after two (decrypted again),
+         * a seed that came out of a decoder, a seed that was loaded.  What a call leaves behind may depend on what was done to the object before. */
+        for (int h = 0; h < 4; h++) {
+            static const char *HN[4] = { "after-crypt", "after-decrypt", "decoded-seed", "loaded-seed" };
+            char c1[48], c2[48], c3[48], c4[48]; snprintf(c1, 48, "store/%s", HN[h]); snprintf(c2, 48, "keygen/%s", HN[h]); snprintf(c3, 48, "encode/%s", HN[h]); snprintf(c4, 48, "crypt/%s", HN[h]);
+            if (!WANT(c1) && !WANT(c2) && !WANT(c3) && !(h >= 2 && WANT(c4))) continue;
+            polyseed_data *hs = seed; rseed cur = rs;
+            if (h == 0) { polyseed_crypt(seed, PW[0]); ref_crypt(&cur, T_MASK); }
+            if (h == 1) { polyseed_crypt(seed, PW[0]); polyseed_crypt(seed, PW[0]); }
+            if (h == 2) { char ph[2048]; ref_phrase(&rs, 0, 1, ph, 0); hs = NULL; if (polyseed_decode_explicit(ph, 1, polyseed_get_lang(0), &hs) != POLYSEED_OK) { res_viol(R, "harness:e4-history", "", "cannot decode the seed's own phrase"); continue; } }
+            if (h == 3) { hs = NULL; if (polyseed_load(good, &hs) != POLYSEED_OK) { res_viol(R, "harness:e4-history", "", "cannot load the seed's own image"); continue; } }
+            J.S = hs; J.coin = 1; J.lang = 0; NND = base_nd;
+            if (WANT(c1)) call(F_STORE, HN[h], -1);
+            if (WANT(c2)) call(F_KEYGEN, HN[h], -1);
+            if (WANT(c3)) { char ph[2048]; ref_phrase(&cur, 0, 1, ph, 0); nd_phrase_words(ph, "phrase-word(output form)"); call(F_ENCODE, HN[h], -1); NND = base_nd; }
+            if (h >= 2 && WANT(c4)) { J.pw = realloc(J.pw, 700); strcpy(J.pw, PW[0]); nd_windows((const uint8_t *)PW[0], strlen(PW[0]), 8, "password"); call(F_CRYPT, HN[h], -1); NND = base_nd; }
+            if (h == 0) polyseed_crypt(seed, PW[0]);
+            if (h >= 2) polyseed_free(hs);
         }
         NND = base_nd;
         if (WANT("free/ok")) { J.S = seed; call(F_FREE, "ok", -1); seed = NULL; }
